@@ -305,9 +305,12 @@ def x_binop(self, st, op, a, b, node):
                 return SymLen(a.base, r)
         r = x_add(a, b) if not (isinstance(a, int) and isinstance(b, int) and a + b <= 1) else a + b
         if isinstance(a, int) and isinstance(b, int) and not isinstance(a, bool) and not isinstance(b, bool):
-            # exact small sums; saturate from 2 upwards only when a counter grows in a loop
+            # exact small sums; saturate (default: from 2 upwards) so that counters in loops stay finite
             s = a + b
-            return s if s <= 2 and not (a >= 2 or b >= 2) and s < 2 else (GE2 if s >= 2 and min(a, b) >= 0 else s)
+            sat = getattr(self, "int_sat", 2)
+            if min(a, b) < 0 or s < sat:
+                return s
+            return GE2
         if r is not None:
             return r
         if isinstance(a, str) and isinstance(b, str):
